@@ -108,15 +108,49 @@ Section Loops.
      hash unless the rune itself is one ---- *)
   Lemma escaped_rune_head : forall f ml hc r, scalar r ->
     (exists tl, escaped_rune f ml hc r = ch_bs :: tl) \/
-    (r < 0x80 /\ 0x20 <= r /\ escaped_rune f ml hc r = [r]) \/
+    (r < 0x80 /\ 0x20 <= r /\ escaped_rune f ml hc r = [r] /\ r <> ch_bs /\ (ml = false -> r <> f_quote f)) \/
     (0x80 <= r /\ exists b tl, escaped_rune f ml hc r = b :: tl /\ 0xC2 <= b).
   Proof.
     intros f ml hc r Hsc. unfold Quote.escaped_rune.
-    destruct ((negb ml && (r =? f_quote f)) || (r =? ch_bs)); [left; eexists; reflexivity|].
+    destruct ((negb ml && (r =? f_quote f)) || (r =? ch_bs)) eqn:E1; [left; eexists; reflexivity|].
     destruct (form_is_print pr_tbl gr_tbl f r) eqn:Epr; [|left; eexists; reflexivity].
     right. destruct (N.ltb_spec r 0x80) as [Hlt|Hge].
-    - left. pose proof (print_ascii _ _ _ _ Epr Hlt). rewrite encode_ascii by assumption. repeat split; lia.
+    - left. pose proof (print_ascii _ _ _ _ Epr Hlt). rewrite encode_ascii by assumption.
+      apply orb_false_elim in E1. destruct E1 as [E1 E2]. apply N.eqb_neq in E2.
+      repeat split; try lia; try assumption.
+      intros ->. cbn in E1. now apply N.eqb_neq in E1.
     - right. split; [assumption|]. destruct (encode_high r Hge) as [_ [b [tl [E Hb]]]]. eauto.
+  Qed.
+
+  (* no raw line terminator is ever emitted by appendEscapedRune *)
+  Lemma escaped_rune_no_crnl : forall f ml hc r, public_form f ->
+    Forall (fun x => x <> ch_nl /\ x <> ch_cr) (escaped_rune f ml hc r).
+  Proof.
+    intros f ml hc r Hpub. unfold Quote.escaped_rune.
+    pose proof (public_quote f Hpub) as Hq.
+    assert (Hh : forall n, Forall (fun x => x <> ch_nl /\ x <> ch_cr) (esc_intro n)).
+    { intro n. unfold esc_intro. constructor; [unfold ch_bs, ch_nl, ch_cr; lia|].
+      unfold hashes. apply Forall_forall. intros x Hx. apply repeat_spec in Hx. subst.
+      unfold ch_hash, ch_nl, ch_cr; lia. }
+    assert (Hd : forall l, Forall (fun x => 48 <= x) l -> Forall (fun x => x <> ch_nl /\ x <> ch_cr) l).
+    { intros l H. eapply Forall_impl; [|exact H]. cbn. unfold ch_nl, ch_cr. lia. }
+    assert (H1 : forall c, 48 <= c -> Forall (fun x => x <> ch_nl /\ x <> ch_cr) [c]).
+    { intros c Hc. constructor; [unfold ch_nl, ch_cr; lia|constructor]. }
+    destruct ((negb ml && (r =? f_quote f)) || (r =? ch_bs)) eqn:E1.
+    { apply Forall_app. split; [apply Hh|]. constructor; [|constructor].
+      assert (r = f_quote f \/ r = ch_bs) by lia.
+      unfold ch_bs, ch_nl, ch_cr, ch_dq, ch_sq in *. lia. }
+    destruct (form_is_print pr_tbl gr_tbl f r) eqn:Epr.
+    { destruct (N.ltb_spec r 0x80) as [Hlt|Hge].
+      - pose proof (print_ascii _ _ _ _ Epr Hlt). rewrite encode_ascii by assumption.
+        constructor; [unfold ch_nl, ch_cr; lia|constructor].
+      - destruct (encode_high r Hge) as [Hall _]. eapply Forall_impl; [|exact Hall].
+        cbn. unfold ch_nl, ch_cr. lia. }
+    apply Forall_app. split; [apply Hh|].
+    repeat match goal with |- context [if ?c then _ else _] => destruct c end;
+      try (apply H1; lia);
+      try (constructor; [unfold ch_nl, ch_cr; lia|]; apply Hd;
+           first [apply hex2_no_ctl|apply hex4_no_ctl|apply hex8_no_ctl]).
   Qed.
 
   Section Fixed.
@@ -147,7 +181,7 @@ Section Loops.
       { rewrite esc_nil in Hp. cbn in Hp. lia. }
       destruct (is_bytes_tail _ _ Hb) as [Hb1 Hb2].
       rewrite esc_cons in Hp.
-      pose proof (decode_spec b t Hb1 Hb2) as DS.
+      pose proof (decode_spec b t) as DS.
       destruct (utf8_decode (b :: t)) as [r w] eqn:D.
       destruct (f_exact f && Nat.eqb w 1 && (r =? rune_error)).
       { unfold esc_intro in Hp. cbn in Hp. lia. }
@@ -156,7 +190,7 @@ Section Loops.
       { cbn in Hp. lia. }
       assert (Hsc : scalar r).
       { destruct DS as [[-> _]|[Hs _]]; [apply scalar_rune_error|exact Hs]. }
-      destruct (escaped_rune_head f true hc r Hsc) as [[tl E]|[[Hlt [Hlo E]]|[Hge [b' [tl [E Hb']]]]]].
+      destruct (escaped_rune_head f true hc r Hsc) as [[tl E]|[[Hlt [Hlo [E _]]]|[Hge [b' [tl [E Hb']]]]]].
       - rewrite E in Hp. cbn in Hp. lia.
       - rewrite E in Hp. cbn [app prefixb] in Hp.
         apply andb_prop in Hp. destruct Hp as [Hp1 Hp2]. apply N.eqb_eq in Hp1. subst c.
@@ -200,7 +234,7 @@ Section Loops.
         exists fuel, st, we. unfold expected. destruct (f_exact f); cbn; auto. }
       destruct (is_bytes_tail _ _ Hb) as [Hb1 Hb2]. unfold is_byte in Hb1.
       cbn [length] in Hn.
-      pose proof (decode_spec b t Hb1 Hb2) as DS.
+      pose proof (decode_spec b t) as DS.
       pose proof (decode_width b t) as W.
       rewrite esc_cons in *.
       destruct (utf8_decode (b :: t)) as [r w] eqn:D.
@@ -216,7 +250,7 @@ Section Loops.
         destruct Ebad as [Hex Hw]. apply Nat.eqb_eq in Hw. apply N.eqb_eq in Hr. subst w r.
         destruct fuel as [|k]; [lia|].
         rewrite <- !app_assoc in *. cbn [app] in *. rewrite <- !app_assoc in *.
-        unfold Q. rewrite (step_bad_byte wrap pr_tbl gr_tbl f ml hc b _ k rbuf st we Hpub Hex Hb1).
+        unfold Q. rewrite (step_bad_byte wrap f ml hc b _ k rbuf st we Hpub Hex Hb1).
         fold Q.
         assert (Hk : (length (esc f ml hc t ++ rest) < k)%nat).
         { unfold esc_intro in Hfuel. cbn [length app] in Hfuel. rewrite !app_length in Hfuel.
@@ -312,7 +346,7 @@ Section Loops.
       2:{ intro H. specialize (Hrestlen H). rewrite app_length. lia. }
       assert (Hl : (length (skipn w (b :: t)) <= n)%nat) by (rewrite skipn_length; cbn [length] in *; lia).
       assert (Hne : escaped_rune f ml hc r <> []).
-      { destruct (escaped_rune_head f ml hc r Hsc) as [[tl E]|[[_ [_ E]]|[_ [b' [tl [E _]]]]]]; rewrite E; discriminate. }
+      { destruct (escaped_rune_head f ml hc r Hsc) as [[tl E]|[[_ [_ [E _]]]|[_ [b' [tl [E _]]]]]]; rewrite E; discriminate. }
       assert (Hk : (length (esc f ml hc (skipn w (b :: t)) ++ rest) < k)%nat).
       { rewrite app_length in Hfuel. destruct (escaped_rune f ml hc r); [contradiction|]. cbn [length] in Hfuel. lia. }
       assert (Hsplit : b :: t = firstn w (b :: t) ++ skipn w (b :: t)) by (symmetry; apply firstn_skipn).
